@@ -416,6 +416,8 @@ type c10cfg struct {
 	shiftAuc   uint64 // auction-id counter ahead by this much (as English auctions of the module leave it)
 	shiftLv    uint64 // locked-vault-id counter ahead by this much (as other liquidations leave it)
 	lendBonus  string // lend kinds: LiquidationBonus of the collateral asset ("" = the fixture's 0.05, "0" = no auction bonus)
+	age        int64  // lend kinds: seconds between the borrow and its liquidation (interest is booked first: the close then sends
+	// the reserve's share to the lend module and mints cTokens for the rest, liquidate.go:781-798)
 }
 
 // start builds one seized position the way the chain does and prints the begin line.
@@ -485,6 +487,17 @@ func c10start(t *testing.T, f *c10fix, tr *Trace, cfg c10cfg) *c10seq {
 			return fail("liquidate")
 		}
 	case "lend", "lendkeeper", "lendcross":
+		if cfg.age > 0 {
+			s.now = f.t0.Add(time.Duration(cfg.age) * time.Second)
+			s.h += cfg.age / 6
+			ctx = ctx.WithBlockTime(s.now).WithBlockHeight(s.h)
+			s.ctx = ctx
+			for _, l := range []string{"lender1", "lender2"} {
+				if ok, _ := c10deliver(app, ctx, lendtypes.NewMsgCalculateInterestAndRewards(c10addr(l).String())); ok {
+					tr.Count("world:lend-interest-booked-before-liquidation")
+				}
+			}
+		}
 		if cfg.lendBonus != "" {
 			if r, found := app.LendKeeper.GetAssetRatesParams(ctx, s.p.coll.id); found {
 				r.LiquidationBonus = c10dec(cfg.lendBonus)
@@ -1073,6 +1086,14 @@ func (s *c10seq) randomOps(rng *Rng, cfg c10cfg) {
 				}
 			}
 			who := bidders[rng.Intn(4)]
+			if rng.Chance(4) {
+				// the same amount offered in the collateral's denomination: bid.go:24-26 must refuse it
+				denom := s.p.coll.denom
+				_, cl := c10deliver(s.f.app, s.ctx, auctionsV2types.NewMsgPlaceMarketBid(c10addr(who).String(), s.aucID, sdk.Coin{Denom: denom, Amount: amt}))
+				s.tr.Count("bidx:" + cl)
+				s.tr.Line("dutch.bidx", who, denom, amt.String(), cl, s.state())
+				continue
+			}
 			s.bid(who, amt)
 		case r < 82:
 			el := int64(s.now.Sub(a.StartTime) / time.Second)
@@ -2051,6 +2072,7 @@ func TestC10(t *testing.T) {
 			cfg.reserve = 200000000
 		}
 		cfg.lendBonus = []string{"", "0", "0", "0.1"}[rng.Intn(4)]
+		cfg.age = []int64{0, 0, 86400 * 30, 86400 * 365}[rng.Intn(4)]
 		s := c10start(t, fl, tr, cfg)
 		if s == nil {
 			continue
